@@ -324,7 +324,7 @@ Definition first_element (h : option (list Z)) : option (list Z * params) :=
 
 Inductive dh_answer :=
 | DHRaise (e : exn)
-| DHAtoms (atoms : list (bool * Z * outcome)).
+| DHAtoms (atoms : list (bool * Z * outcome)) (enc : outcome).   (* enc: outcome of decodedvalue.encode('utf-8'), raise-set {UnicodeEncodeError} *)
 
 Definition text_catch : list exn := [ELookup; EValue; EHeaderParse].
 
@@ -359,7 +359,16 @@ Definition decode_text (c : cfg) (value : list Z) (dh : dh_answer) : res :=
   if negb (has_sub s_eqq value) then Ok else
   match dh with
   | DHRaise e => if f_text c then translate text_catch 400 e 0 else Crash e 0
-  | DHAtoms atoms => if f_text c then text_atoms_fixed atoms else text_atoms_written atoms
+  | DHAtoms atoms enc =>
+    if f_text c then
+      match text_atoms_fixed atoms with
+      | Ok => match enc with                          (* decodedvalue.encode('utf-8'): a lone surrogate is not text *)
+              | OOk => Ok
+              | OExn e => translate text_catch 400 e 4
+              end
+      | r => r
+      end
+    else text_atoms_written atoms
   end.
 
 (** the Cookie header: SimpleCookie.load, raise-set {CookieError} *)
@@ -1073,6 +1082,7 @@ Definition sx_dh (s : sx) : dh_answer :=
   match sx_Z (nth_sx 0 s) with
   | 0 => DHAtoms (map (fun a => (sx_bool (nth_sx 0 a), sx_Z (nth_sx 1 a), sx_outcome (nth_sx 2 a)))
                       (sx_list (nth_sx 1 s)))
+                 (sx_outcome (nth_sx 2 s))
   | _ => DHRaise (exn_of_id (sx_Z (nth_sx 1 s)))
   end.
 
